@@ -249,5 +249,18 @@ _W9_GUARDS = {
             "cookie-keys-of-the-other-application:suffix-appended": 80},
     "C20": {"requests-of-sibling-instances-checked": 900},
 }
-for _p, _g in _W9_GUARDS.items():
-    PROPS[_p]["min_probes"]["quick"].update(_g)
+# ... and with the tenth (undirected) wave (DESIGN.md 12.17)
+_W10_GUARDS = {
+    "C05": {"foreign-caller-whose-form-names-the-owner": 200},
+    "C07": {"foreign-caller-whose-form-names-the-owner": 400},
+    "C08": {"foreign-caller-whose-form-names-the-owner": 150},
+    "C09": {"rp-handler-reached-the-userinfo-callback": 8},
+    "C14": {"delegated-assertions-authenticating-a-client": 50, "helper-assertions-accepted": 1500},
+    "C16": {"device-form-at-an-absolute-address": 30},
+    "C17": {"worlds-with-the-userinfo-callback": 150},
+    "C19": {"endpoints-disabled-on-the-server": 80},
+    "C20": {"client-side-device-flows": 100},
+}
+for _gs in (_W9_GUARDS, _W10_GUARDS):
+    for _p, _g in _gs.items():
+        PROPS[_p]["min_probes"]["quick"].update(_g)
